@@ -474,6 +474,10 @@ def work_gauss(item, col):
                         if A > 1 and np.any(np.abs(z) > 0):
                             col.outcome("logp_cases_summing_over_several_dimensions")
             # ---- sample = mean + std * key-determined noise ---------------------------------
+            # (i) each sample against mean + std*noise with the 1e-5 policy (the jitted sample recomputes the
+            #     forward pass, so its mean may differ from the eager one by network rounding);
+            # (ii) differences of samples under consecutive keys cancel the mean: std*(noise_i - noise_j) sharp.
+            got = {}
             for ki, key in enumerate(kk):
                 if (rank, ki) not in noise:
                     continue
@@ -483,15 +487,28 @@ def work_gauss(item, col):
                 if ok and shape_ok(col, E_S, s, full, d):
                     eps = noise[(rank, ki)]
                     ref = mean64 + std * eps
-                    tol = 8 * num.EPS32 * (np.abs(mean64) + np.abs(std * eps)) + 1e-30
                     s64 = np.asarray(s, np.float64)
+                    tol = 1e-5 * np.maximum(1.0, np.abs(ref)) + 1e-5 * np.abs(std * eps)
                     if not np.all(np.abs(s64 - ref) <= tol):
                         col.violation(SIG.format(E_S, K_AFFINE), dict(d, sample=s64, ref=ref, mean=mean32, std=std, noise=eps))
-                    else:
-                        if clip_matters:
-                            col.outcome("sample_cases_where_dropping_the_clip_changes_the_value")
-                        if np.any(np.abs(std * eps) > tol):
-                            col.outcome("sample_cases_where_the_noise_term_is_visible")
+                        continue
+                    got[ki] = s64
+                    if clip_matters:
+                        col.outcome("sample_cases_where_dropping_the_clip_changes_the_value")
+                    if np.any(np.abs(std * eps) > tol):
+                        col.outcome("sample_cases_where_the_noise_term_is_visible")
+            for ki in sorted(got):
+                kj = ki + 1
+                if kj not in got:
+                    continue
+                dn = noise[(rank, ki)] - noise[(rank, kj)]
+                ref = std * dn
+                tol = 4 * num.EPS32 * (np.abs(got[ki]) + np.abs(got[kj])) + 1e-5 * np.abs(ref) + 1e-30
+                col.tick(1, None if canonical else ktag + ("sample-diff", ki))
+                if not np.all(np.abs((got[ki] - got[kj]) - ref) <= tol):
+                    col.violation(SIG.format(E_S, K_AFFINE), dict(base, key_index=[ki, kj], sample_i=got[ki], sample_j=got[kj], std=std, noise_difference=dn))
+                elif np.any(np.abs(ref) > 10 * tol):
+                    col.outcome("sample_difference_cases_where_std_is_resolved")
     col.sample(dict(kind="gauss", cls=cls, shared=shared, A=A, psets=mine))
 
 
@@ -723,6 +740,11 @@ def run_loop(item, rolls):
     kw = dict(batch_size=10**6, total_timesteps=T, global_step=w, progress_bar=False, seed=item["seed"])
     if algo != "train_dqn":
         kw["learning_starts"] = ls
+        # a target network whose arg-max is always a different action: acting must use the online estimates
+        qt = fixed_qnet()
+        qt.output_layer.kernel.value = jnp.roll(qt.output_layer.kernel.value, 1, axis=1)
+        qt.output_layer.bias.value = jnp.roll(qt.output_layer.bias.value, 1)
+        kw["q_target_net"] = qt
     err = None
     try:
         with mock.patch("jax.random.uniform", fake):
